@@ -16,7 +16,7 @@ static uint64_t nA, nB, nC;
 
 static std::string spec_desc(const RspSpec& s)
 {
-    std::string d = "code=" + std::to_string(s.code) + " headers=[";
+    std::string d = "code=" + std::to_string(s.code) + (s.salt >= 100 ? " binary-fill" + std::to_string(s.salt - 100) : std::string()) + " headers=[";
     for (int h : s.headers)
         d += std::string(rsp_headers()[h].name) + ",";
     d += "] cookies=" + std::to_string(s.cookies.size());
@@ -108,6 +108,16 @@ static void caseA(uint64_t i, vr::Ctx& ctx)
         size_t total = check_response(s, r, ctx, false);
         ctx.count("evaluations", 1);
         ctx.state(vr::hash_str(std::to_string(total) + "|" + std::to_string(r.promise)));
+        if (len % 8 == 0 || (len >= 400 && len <= 530))
+        {
+            // the same length with a binary body (0xFF / 0x00 / 0x80 at every offset)
+            s.salt = 100 + int(len / 8) % 3;
+            ctx.note("A " + spec_desc(s));
+            RspResult rb = run_response(s, &steps);
+            check_response(s, rb, ctx, false);
+            ctx.count("evaluations", 1);
+            s.salt = int(len % 7);
+        }
         if (!total)
             continue;
         // limits around the exact size: only on a thinned set of lengths (each costs a full cycle)
@@ -142,7 +152,7 @@ static void caseB(uint64_t i, vr::Ctx& ctx)
     s.code         = gCodes[i % gCodes.size()];
     s.headers      = gHdrSets[i % gHdrSets.size()];
     s.cookies      = gCookieSets[i % gCookieSets.size()];
-    s.salt         = int(i % 5);
+    s.salt         = (i % 11 == 10) ? 100 + int(i / 11) % 3 : int(i % 5); // every 11th: binary payloads
     uint64_t steps = 0;
     ctx.note("B " + spec_desc(s));
     RspResult r = run_response(s, &steps);
@@ -175,6 +185,17 @@ static void caseC(uint64_t i, vr::Ctx& ctx)
         ctx.violation("c05:request:bytes-after-message", d);
     if (m.method != Http::methodString(methods()[s.method]))
         ctx.violation("c05:request:wrong-method", d);
+    {
+        // origin-form target: the resource's path, then its own query and/or the params() query
+        const Res& rs       = resources()[s.resource];
+        std::string wantPath = rs.path;
+        size_t qm           = m.target.find('?');
+        std::string gotPath = m.target.substr(0, qm);
+        if (m.target.empty() || m.target[0] != '/' || gotPath != wantPath)
+            ctx.violation("c05:request:target-not-origin-form-of-the-resource", "{\"given\":" + vr::jstr(rs.given) + ",\"target\":" + vr::jstr(m.target) + ",\"expected_path\":" + vr::jstr(wantPath) + "}");
+        else if (*rs.ownQuery && m.target.find(rs.ownQuery) == std::string::npos)
+            ctx.violation("c05:request:query-of-the-resource-lost", "{\"given\":" + vr::jstr(rs.given) + ",\"target\":" + vr::jstr(m.target) + "}");
+    }
     const std::string& body = gBodies[s.body];
     if (m.body != body)
         ctx.violation("c05:request:body-differs", d);
